@@ -116,8 +116,9 @@ def execute(scn):
             # an error object is always acceptable for C08 - except in the fault-free configuration,
             # where a conformant server's well-formed reply must be returned decoded
             if scn.get('config') == 'fault-free' and not acts:
-                out['violations'].append({'sig': dict(sig0, **{'class': 'good-reply-rejected', 'fn': op['fn'],
+                out['violations'].append({'sig': dict(sig0, **{'class': 'good-reply-rejected',
                                                                'reply': 'exception' if 'exc' in op['reply'] else 'normal',
+                                                               'size_prediction': op['fn'] not in ('mask_write_register', 'read_exception_status'),
                                                                'prev_failed': prev_failed(res, ops, call)}),
                                           'msg': 'call %d (%s, unit %d): a well-formed reply was sent but the client returned %s'
                                           % (call['index'], op['fn'], op['unit'], str(r)[:100])})
@@ -136,11 +137,19 @@ def execute(scn):
         rx = b''.join(d for (seq, task, k_, name, d) in res_io(res) if k_ == 'recv' and call['invoke_seq'] < seq < call['return_seq'])
         wire = [x for x in peer.rx if x.get('op') == (0, call['index']) and x['ok']] if peer else []
         req_tid = wire[-1]['tid'] if wire else None
-        if kind == 'udp' or framing == 'tls':
+        if kind == 'udp':
             frames = []
             for (seq, task, k_, name, d) in res_io(res):
                 if k_ == 'recv' and call['invoke_seq'] < seq < call['return_seq']:
                     frames += receiver.justified(framing, d, 'rsp')
+        elif framing == 'tls':
+            # no framing on the wire: a PDU is some run of consecutive reads
+            chunks = [d for (seq, task, k_, name, d) in res_io(res)
+                      if k_ == 'recv' and call['invoke_seq'] < seq < call['return_seq']]
+            frames = []
+            for i in range(len(chunks)):
+                for j in range(i + 1, len(chunks) + 1):
+                    frames.append((i, j, None, None, b''.join(chunks[i:j])))
         else:
             frames = receiver.justified(framing, rx, 'rsp')
         cands = [f for f in frames if f[4] == pdu]
@@ -161,7 +170,8 @@ def execute(scn):
             cls = 'foreign-reply-returned'
             wtag = ('fc' if why.startswith('function') else 'tid' if why.startswith('transaction') else
                     'unit' if why.startswith('unit') else 'no-frame')
-            out['violations'].append({'sig': dict(sig0, **{'class': cls, 'mismatch': wtag, 'acts': '+'.join(sorted(set(acts))) or 'none'}),
+            out['violations'].append({'sig': dict(sig0, **{'class': cls, 'mismatch': wtag,
+                                                           'request_unit_wildcard': op['unit'] in (0, 255)}),
                                       'msg': 'call %d (%s unit %d) returned %s decoded from pdu %s: %s'
                                       % (call['index'], op['fn'], op['unit'], type(r).__name__, pdu.hex()[:40], why)})
             continue
